@@ -164,3 +164,32 @@ def run(chk):
                                  f'{sorted(got) if isinstance(got, dict) else got}, alone it gets {sorted(alone)} (auto names must not depend on other threads)', {})
   if other != struct(dsl.MB(body=(('P', 'a'),), quiet=True).init(rngs1, None)):
     chk.violation('C02:threads', f'the unrelated module initialised meanwhile got {other}', {})
+  # ---- lifted helper blocks on the running module (LinenScope op G, nn.remat): the variable tree that init returns is the module
+  # tree of the specification - auto-named children created inside the block and after it keep distinct names and subtrees
+  import random
+  import dsl_linen_r as dr
+  blk = tlc.require_ok(tlc.run('LinenScope', 'LinenScope_lift_block.cfg', workers=1, timeout=3000), 'LinenScope lifted block focused')
+  chk.add_tlc(blk, 'LinenScope exhaustive: auto-named children inside / after a function-style lifted block')
+  behs = [b for b in blk['exports'] if any(op['k'] == 'G' for op in b['prog']) and not any(op['k'] == 'G' and op['lift'] == 'jit' for op in b['prog'])
+          and sum(op['k'] == 'E' for op in b['prog']) >= 2 and b['res'][0]['status'] == 'returned']      # (jit blocks: finding F21, C05)
+  seen = set()
+  if not chk.thorough:
+    behs = random.Random(chk.seed + 5).sample(behs, min(len(behs), 200))
+  for beh in behs:
+    sig = str(beh['prog']) + str(beh['res'][0]['cfg'])
+    if sig in seen:
+      continue
+    seen.add(sig)
+    init = beh['res'][0]
+    key = 'C02:lifted-block:' + ' '.join(op['k'] + ''.join(str(op.get(f, '')) for f in ('c', 'n', 's', 'cl')) + (':' + op['lift'] if op.get('lift', 'none') != 'none' else '')
+                                         for op in beh['prog'])
+    chk.count(key)
+    try:
+      _, ret = dr.Root(body=dr.parse(beh['prog']), wrap='none').init_with_output(lc.rngs_for(init['cfg']['streams']))
+    except Exception as e:
+      chk.violation(key, f'init raised {type(e).__name__}: {str(e)[:160]}, specification returns', beh)
+      continue
+    spec_cols = [c for c in init['ret']] if isinstance(init['ret'], dict) else []
+    for _, msg in list(lc.compare_tree(init['ret'], spec_cols, ret, lc.KeyMap(), 'init result'))[:1]:
+      chk.violation(key, msg, beh)
+  chk.cov['lifted_block_programs'] = len(seen)
